@@ -254,6 +254,16 @@ EmptyIsUnset ==
     st.allowed = AllowedFor([act EXCEPT !.srcs = [i \in 1..Len(act.srcs) |-> IF act.srcs[i].k = "empty" /\ act.fam # "sampler"
                                                                              THEN Absent ELSE act.srcs[i]]])
 
+(* value class UNPARSABLE: an endpoint source whose text is not a URL is indistinguishable from an absent one, in
+   every position (option / signal variable / generic variable) of every exporter: the lower-precedence sources
+   decide, the built-in default only when they provide nothing either *)
+UnparsableIsUnset ==
+  st.phase = "configured" /\ act.fam = "endpoint" =>
+    /\ st.allowed = AllowedFor([act EXCEPT !.srcs = [i \in 1..3 |-> IF act.srcs[i].k \in ProvidesNothing THEN Absent ELSE act.srcs[i]]])
+    /\ ((\A i \in 1..3 : act.srcs[i].k \in ProvidesNothing \cup {"absent", "empty", "url", "host", "hostpath"})
+           /\ (\E i \in 1..3 : act.srcs[i].k \in {"url", "host", "hostpath"})
+         => \A r \in EndpointAllowed(act.comp, act.srcs) : r.who # "none")
+
 (* exporters of different signals agree on the rule: the admissible outcomes of a scalar exporter
    setting do not depend on the component; endpoint outcomes differ only by the signal path *)
 SignalsAgree ==
